@@ -84,7 +84,7 @@ Definition kappa2_with (n : nat) (X A : smx) : F := strace (sgram n A) * strace 
 
 (* [mode]: which relations are checked — 1: coefficients (code 3); 2: residuals (4, 5); 4: Jacobian (10+k);
    sums select several *)
-Definition check_state (mode : nat) (cu2 floor2 k2max : F) (o : state_obs) : nat :=
+Definition check_state (mode : nat) (cu2 floor2 k2max eps2 : F) (o : state_obs) : nat :=
   let n := so_n o in let m := so_m o in
   let A := wscale (so_w o) (so_Phi o) in
   let B := wscale (so_w o) (so_Y o) in
@@ -96,6 +96,9 @@ Definition check_state (mode : nat) (cu2 floor2 k2max : F) (o : state_obs) : nat
       let k2 := kappa2_with n X A in
       let C := coeffs_with n m X A B in
       if k2max < k2 then 1%N else
+      (* every singular value of A is at least 1/sqrt(tr X): with the threshold (eps2 = eps^2) safely below, nothing
+         is truncated and the plain least-squares solution is expected; otherwise not compared *)
+      if ~~ (eps2 * strace X * (10%:R ^+ 4) < 1) then 1%N else
       let t2 := tol2_solve cu2 n m k2 in
       let bn := Num.max (Num.max (sfro2 B) (sfro2 A * sfro2 (so_C o))) floor2 in
       let mc := odd mode in let mr := odd (mode %/ 2) in let mj := odd (mode %/ 4) in
@@ -121,6 +124,63 @@ Definition check_state (mode : nat) (cu2 floor2 k2max : F) (o : state_obs) : nat
             cols 0%N J (so_Ds o)
         end
   | None => 1%N
+  end.
+
+(* ---------------------------------------------------------------- rank-deficient basis matrices *)
+(* The minimum-norm least-squares solution of an exactly rank-deficient A (n x m, rank r < m), from a
+   full-rank factorisation A = Bm * D found through the columns [sel] (a list of r column indices
+   that the case generator knows to be independent; everything is CHECKED, nothing trusted):
+     Bm := columns sel of A,  D := (Bm^T Bm)^-1 Bm^T A  (r x m),  require A = Bm D exactly,
+     C  := D^T (D D^T)^-1 (Bm^T Bm)^-1 Bm^T B.
+   Then C = A^T Z for Z := Bm (Bm^T Bm)^-1 (D D^T)^-1 (Bm^T Bm)^-1 Bm^T B and A^T (B - A C) = 0:
+   C is THE minimum-norm minimiser (Proofs: ls_min_norm). *)
+Definition sel_cols (A : smx) (sel : seq nat) : smx := [seq nth [::] A j | j <- sel].
+
+Record minnorm := { mn_C : smx; mn_k2 : F; mn_smin2inv : F }.
+
+Definition spec_minnorm (n m : nat) (A B : smx) (sel : seq nat) : option minnorm :=
+  let r := size sel in
+  let Bm := sel_cols A sel in
+  match inv_cert r (sgram n Bm) with
+  | None => None
+  | Some X =>
+      let D := smul r X (smul r (strans n Bm) A) in          (* r x m *)
+      if ~~ (smul n Bm D == A) then None else
+      let Dt := strans r D in                                (* m x r *)
+      match inv_cert r (smul r D Dt) with
+      | None => None
+      | Some Xd =>
+          let C := smul m Dt (smul r Xd (smul r X (smul r (strans n Bm) B))) in
+          (* exact certificate of optimality: normal equations of the full matrix *)
+          if ~~ (smul m (strans n A) (ssub B (smul n A C)) == szero F m (size B)) then None
+          else Some {| mn_C := C;
+                       mn_k2 := (strace (sgram n Bm) * strace X) * (strace (smul r D Dt) * strace Xd);
+                       mn_smin2inv := strace X * strace Xd |}
+      end
+  end.
+
+(* acceptance for a rank-deficient state with user threshold eps (eps2 = eps^2): the float singular
+   values must split cleanly around eps — the smallest non-zero singular value of A is at least
+   1/sqrt(tr X tr Xd), the computed "zero" singular values are of order u ||A|| — otherwise the case
+   is not compared (code 1).  codes: 3 coefficients, 4 residuals, 8 non-finite / shapes *)
+Definition check_rankdef (cu2 floor2 k2max eps2 : F) (n m : nat) (w : option (seq F)) (Phi Y : smx)
+           (sel : seq nat) (Cimpl : smx) (Rimpl : seq F) : nat :=
+  let A := wscale w Phi in
+  let B := wscale w Y in
+  let s := size Y in
+  if ~~ [&& wf n m Phi, wf n s Y, wf m s Cimpl & size Rimpl == (s * n)%N] then 8%N else
+  match spec_minnorm n m A B sel with
+  | None => 1%N
+  | Some mn =>
+      if k2max < mn_k2 mn then 1%N
+      else if ~~ (eps2 * mn_smin2inv mn * (10%:R ^+ 6) < 1) then 1%N
+      else if ~~ (cu2 * sfro2 A * (10%:R ^+ 6) < eps2) then 1%N
+      else
+        let t2 := tol2_solve cu2 n m (mn_k2 mn) in
+        let bn := Num.max (Num.max (sfro2 B) (sfro2 A * sfro2 Cimpl)) floor2 in
+        if ~~ close2 t2 floor2 (flatten Cimpl) (flatten (mn_C mn)) then 3%N
+        else if ~~ (svnrm2 (svsub Rimpl (flatten (ssub B (smul n A (mn_C mn))))) <= t2 * bn) then 4%N
+        else 0%N
   end.
 
 (* best fit of a result: Phi(alpha) * C (unweighted), n x s; code 0 ok, 2 shapes, 7 values *)
